@@ -15,6 +15,7 @@ import (
 // Symbolic strings travel as placeholder tokens and are restored after decoding.
 
 type jsonCodec struct {
+	eng    *Engine
 	ps     *pathState
 	tokens map[string]value
 }
@@ -134,7 +135,7 @@ func (c *jsonCodec) toNative(v value, t types.Type) any {
 		if t == nil || !ok {
 			panic(unsupported{"json.Marshal of a struct of unknown type"})
 		}
-		out := map[string]any{}
+		var out orderedObject
 		for k := 0; k < st.NumFields(); k++ {
 			name, omit, skip := jsonFieldName(st, k)
 			if skip {
@@ -144,15 +145,44 @@ func (c *jsonCodec) toNative(v value, t types.Type) any {
 			if omit && isEmptyJSON(n) {
 				continue
 			}
-			out[name] = n
+			out = append(out, orderedField{name, n})
 		}
 		return out
 	}
 	panic(unsupported{fmt.Sprintf("json.Marshal: %T", v)})
 }
 
+// orderedObject is a JSON object whose members keep the struct's field order.
+type orderedField struct {
+	name string
+	val  any
+}
+type orderedObject []orderedField
+
+func (o orderedObject) MarshalJSON() ([]byte, error) {
+	var bb bytes.Buffer
+	bb.WriteByte('{')
+	for k, f := range o {
+		if k > 0 {
+			bb.WriteByte(',')
+		}
+		nb, _ := json.Marshal(f.name)
+		bb.Write(nb)
+		bb.WriteByte(':')
+		vb, err := json.Marshal(f.val)
+		if err != nil {
+			return nil, err
+		}
+		bb.Write(vb)
+	}
+	bb.WriteByte('}')
+	return bb.Bytes(), nil
+}
+
 func isEmptyJSON(n any) bool {
 	switch x := n.(type) {
+	case orderedObject:
+		return false
 	case nil:
 		return true
 	case string:
@@ -314,7 +344,7 @@ func (c *jsonCodec) generic(n any) value {
 	case float64:
 		return iface{t: types.Typ[types.Float64], v: x}
 	case json.Number:
-		return iface{t: types.Typ[types.Float64], v: x}
+		return iface{t: c.eng.namedType("encoding/json", "Number"), v: string(x)}
 	case []any:
 		out := make([]value, len(x))
 		for i := range x {
@@ -345,11 +375,17 @@ func registerJSONCodec(e *Engine) {
 		if c, ok := ps.store["json.codec"].(*jsonCodec); ok {
 			return c
 		}
-		c := &jsonCodec{ps: ps, tokens: map[string]value{}}
+		c := &jsonCodec{ps: ps, eng: e, tokens: map[string]value{}}
 		ps.store["json.codec"] = c
 		return c
 	}
+	symbolicTextMarshal := in["encoding/json.Marshal"] // escapes a symbolic string byte by byte
 	in["encoding/json.Marshal"] = func(fr *frame, a []value) value {
+		if itf, ok := a[0].(iface); ok && symbolicTextMarshal != nil {
+			if _, isSym := itf.v.(sstr); isSym {
+				return symbolicTextMarshal(fr, a)
+			}
+		}
 		c := codecOf(fr.i.ps)
 		n := c.toNative(a[0], nil)
 		var bb bytes.Buffer
